@@ -40,8 +40,9 @@ using celma::log::detail::LogMsg;
 namespace {
 
 enum Kind { COUNTED = 0, MAXSIZE = 1 };
-enum Ev { W_SHORT = 0, W_MEDIUM = 1, W_LONG = 2, REOPEN = 3 };
-const char kEvChar[] = {'s', 'm', 'l', 'R'};
+// W_OVER: a message that is longer than the size limit (MaxSize); it can only live alone in a generation
+enum Ev { W_SHORT = 0, W_MEDIUM = 1, W_LONG = 2, REOPEN = 3, W_OVER = 4 };
+const char kEvChar[] = {'s', 'm', 'l', 'R', 'X', 0};
 
 struct Case {
   int kind = COUNTED;
@@ -68,7 +69,7 @@ std::string domainError(const Case &c) {
     if (l > 4000) return "message length too large";
   }
   size_t writes = 0;
-  for (auto e : c.events) { if (e > REOPEN) return "bad event"; if (e != REOPEN) ++writes; }
+  for (auto e : c.events) { if (e > W_OVER) return "bad event"; if (e != REOPEN) ++writes; }
   if (writes > kMaxWrites) return "more than 100 writes";
   return "";
 }
@@ -290,9 +291,10 @@ std::string limitText(const Case &c) {
 
 // per-case class counters, flushed into the statistics once per case (string keyed maps are slow per event)
 enum Cls { EV_WRITE, EV_REOPEN, WRITE_APPEND, WRITE_ROLL, WRITE_BOUNDARY_EXACT, REOPEN_NONEMPTY, REOPEN_EMPTY, REOPEN_ROLL,
-           ROLL_DROPPED_OLDEST, REOPEN_ROLL_SINGLE_GEN, CLS_COUNT };
+           ROLL_DROPPED_OLDEST, REOPEN_ROLL_SINGLE_GEN, WRITE_OVERSIZED, CLS_COUNT };
 const char *const kClsNames[] = {"ev.write", "ev.reopen", "write.append", "write.roll", "write.boundary_exact", "reopen.nonempty",
-                                 "reopen.empty", "reopen.roll", "roll.dropped_oldest", "reopen.roll_single_generation_drops_all"};
+                                 "reopen.empty", "reopen.roll", "roll.dropped_oldest", "reopen.roll_single_generation_drops_all",
+                                 "write.oversized_message"};
 
 std::string runCase(const Case &c) {
   auto &st = stats();
@@ -332,7 +334,7 @@ std::string runCase(const Case &c) {
     const int ev = ei < 0 ? REOPEN : c.events[ei];
     const bool isWrite = ev != REOPEN;
     std::string text;
-    if (isWrite) text = messageText(written.size(), c.len[ev]);
+    if (isWrite) text = messageText(written.size(), ev == W_OVER ? (c.kind == MAXSIZE ? c.limit + 3 : 30) : c.len[ev]);
     // failure text, only built when needed
     auto fail = [&](const std::string &what, bool withStates = true) {
       std::string r = limitText(c) + " ";
@@ -383,7 +385,9 @@ std::string runCase(const Case &c) {
 
     // P3: per-file limit
     for (auto &g : obs) {
-      if (c.kind == MAXSIZE && sizes[g.first] > c.limit)
+      // a message that is longer than the limit cannot fit anywhere: alone in its generation it is the only exception
+      const bool loneOversized = g.second.size() == 1 && g.second[0].size() + 1 > c.limit;
+      if (c.kind == MAXSIZE && sizes[g.first] > c.limit && !loneOversized)
         return fail("file " + genName(g.first) + " has " + std::to_string(sizes[g.first]) + " bytes, limit is " + std::to_string(c.limit));
       if (c.kind == COUNTED && g.second.size() > c.limit)
         return fail("file " + genName(g.first) + " holds " + std::to_string(g.second.size()) + " entries, limit is " + std::to_string(c.limit));
@@ -401,9 +405,10 @@ std::string runCase(const Case &c) {
       size_t after = 0;
       if (isWrite) {
         ++cnt[EV_WRITE];
+        if (ev == W_OVER && c.kind == MAXSIZE) ++cnt[WRITE_OVERSIZED];
         if (c.kind == MAXSIZE) {
           after = size0 + text.size() + 1;
-          sameOK = after <= c.limit;      // the file does not exceed the limit
+          sameOK = after <= c.limit || lines0 == 0;   // the file does not exceed the limit (an empty file takes any message)
           rollOK = after >= c.limit;      // generous: reaching the limit may already count as "would exceed"
           if (after == c.limit) ++cnt[WRITE_BOUNDARY_EXACT];
         } else {
@@ -512,9 +517,11 @@ rc::Gen<Case> genCase() {
     // reopen density varies per case: a few histories are reopen-heavy, most write-heavy
     int reopenWeight = *rc::gen::weightedElement<int>({{3, 1}, {3, 3}, {1, 8}});
     int longWeight = *rc::gen::weightedElement<int>({{2, 1}, {2, 4}});
+    int overWeight = c.kind == MAXSIZE ? *rc::gen::weightedElement<int>({{2, 0}, {2, 1}, {1, 3}}) : 0;
     for (size_t i = 0; i < n; ++i)
       c.events.push_back(static_cast<uint8_t>(*rc::gen::weightedElement<int>(
-          {{6, W_SHORT}, {4, W_MEDIUM}, {static_cast<size_t>(longWeight), W_LONG}, {static_cast<size_t>(reopenWeight), REOPEN}})));
+          {{6, W_SHORT}, {4, W_MEDIUM}, {static_cast<size_t>(longWeight), W_LONG}, {static_cast<size_t>(reopenWeight), REOPEN},
+           {static_cast<size_t>(overWeight), W_OVER}})));
     return c;
   });
 }
@@ -558,8 +565,27 @@ void enumerate(const std::function<bool(const Case &)> &cb) {
       if (!cb(c)) return;
     }
   }
+  // histories with over-long messages: 5 symbol alphabet, MaxSize configurations of the small range, length maxlen-2
+  uint64_t nOver = 0;
+  for (auto &ec : configs) {
+    if (!ec.small || ec.c.kind != MAXSIZE) continue;
+    ++nOver;
+    const long len = std::max(1L, maxlen - 2);
+    uint64_t histories = 1;
+    for (long i = 0; i < len; ++i) histories *= 5;
+    for (uint64_t h = 0; h < histories; ++h, ++idx) {
+      if (idx % shards != shard) continue;
+      Case c = ec.c;
+      c.viaHandler = false;
+      uint64_t x = h;
+      bool hasOver = false;
+      for (long i = 0; i < len; ++i) { uint8_t e = static_cast<uint8_t>(x % 5); c.events.push_back(e); if (e == W_OVER) hasOver = true; x /= 5; }
+      if (!hasOver) continue;   // covered by the 4 symbol enumeration
+      if (!cb(c)) return;
+    }
+  }
   std::ostringstream o;
-  o << "{\"small_range_configurations\":" << nSmall << ",\"small_range_history_length\":" << maxlen
+  o << "{\"oversized_message_configurations\":" << nOver << ",\"small_range_configurations\":" << nSmall << ",\"small_range_history_length\":" << maxlen
     << ",\"wide_range_configurations\":" << nWide << ",\"wide_range_history_length\":" << std::max(1L, maxlen - 2) << "}";
   stats().extraJson = o.str();
 }
